@@ -1,9 +1,11 @@
 \* growth: the required design with relay-map changes (empty map: runs return early) and shutdown
 SPECIFICATION SpecFixedMap
-INVARIANT TypeOK AtMostOneRun NoStuckWant
-PROPERTY WantLeadsToRun SkipLeavesNothing
+INVARIANT TypeOK AtMostOneRun NoStuckWant OwedIsQueued NoLostRequest
+PROPERTY WantLeadsToRun OwedLeadsToRun SkipLeavesNothing
 CHECK_DEADLOCK FALSE
 CONSTANTS
   UnlockFirst = TRUE
   WithMap = TRUE
+  ClearOnHeld = FALSE
+  EmitAllUpTo = 100
   KeepHist = FALSE
